@@ -85,7 +85,9 @@ class Gen:
         import datetime
         d = datetime.datetime.fromtimestamp(base, datetime.timezone.utc)
         if r.random() < 0.1:
-            d = d.replace(year=r.choice([1000, 1970, 2000, 9999]))
+            y = r.choice([1000, 1970, 2000, 9999])
+            # 29 February does not exist in 1000, 1970 and 9999: use the 28th (same random draws as before)
+            d = d.replace(year=y, day=28) if (d.month, d.day) == (2, 29) else d.replace(year=y)
         return d.strftime("%Y-%m-%dT%H:%M:%S") + r.choice(FRACS) + "Z"
 
     def string(self, safe=False):
